@@ -131,7 +131,9 @@ CLAIMED = {
         "states the round trip on the unparser model itself (the model tied to expr_unparse.py by string equality); the word splitting is "
         "checked against CPython's tokenizer on the real unparser's text. C03_scope_rewriting_keeps_core (LowerCore.transf_keeps_core, "
         "induction over the tree): the expression the converter's scope-rewriting layer emits for ANY core expression - dictionary "
-        "loads/stores, conditional loads, globals(), written-out super() - is again in the core; whole converter outputs are explored "
+        "loads/stores, conditional loads, globals(), written-out super() - is again in the core; C03_statement_layer_keeps_core "
+        "(StmtCore.lower_module_core_top, induction over statements): so is the ONE expression the statement layer makes of ANY program "
+        "of the fragment whose own expressions are in the core; whole converter outputs are explored "
         "too (how many lie inside the core is counted in the evidence).",
    note=TRUST + "Parse.pc is a hand-written model of CPython's parser on the core (validated, not verified); literals are opaque tokens whose spelling is C04's theorem; tokenisation is CPython's.",
    technique="Coq proof (structural induction + simulation of a fuelled precedence-climbing parser, finite table checks by vm_compute) over the generated precedence tables + parser/printer correspondence with CPython + exhaustive composition round trips",
